@@ -50,9 +50,29 @@ def exec_plain(bound, env):
         return outcome_ok(value), value
 
 
+PRISTINE_APPLY = ("write_file", "new_mole", "new_iodata")
+PRISTINE_QUERY = ("parse", "from_pyscf", "from_iodata")
+
+
+def _value_from_canon(c):
+    """Rebuild a plain ndarray from its canonical form (used for kept query results)."""
+    import numpy as np
+
+    if c[0] == "nd":
+        return np.frombuffer(c[3], dtype=c[1]).reshape(c[2]).copy()
+    raise ValueError("not an array")
+
+
 class Zygote:
-    def __init__(self, make_fs):
+    """``pristine=False``: the history-free world of DESIGN §3.5-O2 (applies state-building operations,
+    evaluates queries in forked children).  ``pristine=True``: a world in which *no library call is
+    ever made in-process* - it only mirrors files and stub molecules and answers the three import
+    calls whose arguments need no library object (parse_*, from_pyscf, from_iodata)."""
+
+    def __init__(self, make_fs, pristine=False):
         from .world import World, resolve
+
+        self.pristine = pristine
 
         to_child_r, to_child_w = os.pipe()
         from_child_r, from_child_w = os.pipe()
@@ -64,7 +84,7 @@ class Zygote:
                 os.close(from_child_r)
                 fs = make_fs()
                 try:
-                    self._serve(World(fs, history_side=False), resolve, to_child_r, from_child_w)
+                    self._serve(World(fs, history_side=False), resolve, to_child_r, from_child_w, pristine)
                 finally:
                     fs.cleanup()
             except BaseException:  # noqa: BLE001
@@ -81,7 +101,35 @@ class Zygote:
         self._r = from_child_r
 
     @staticmethod
-    def _serve(world, resolve, rfd, wfd):
+    def _in_child(fn):
+        """Run ``fn`` in a forked child and return what it sends back."""
+        r, w = os.pipe()
+        pid = os.fork()
+        if pid == 0:
+            code = 0
+            try:
+                os.close(r)
+                _send(w, fn())
+            except BaseException:  # noqa: BLE001
+                import traceback
+
+                try:
+                    _send(w, ("harness", traceback.format_exc()))
+                except BaseException:  # noqa: BLE001
+                    code = 4
+            finally:
+                os._exit(code)
+        os.close(w)
+        try:
+            out = _recv(r)
+        except EOFError:
+            out = ("harness", "reference child died without an answer")
+        os.close(r)
+        os.waitpid(pid, 0)
+        return out
+
+    @classmethod
+    def _serve(cls, world, resolve, rfd, wfd, pristine=False):
         current = None
         while True:
             try:
@@ -92,15 +140,32 @@ class Zygote:
             if cmd == "quit":
                 return
             if cmd == "op":
+                op = msg["op"]
+                if pristine and op["op"] not in PRISTINE_APPLY + PRISTINE_QUERY:
+                    _send(wfd, ("skip",))
+                    continue
                 try:
-                    bound = resolve(world, msg["op"])
-                except Exception as exc:  # noqa: BLE001
+                    bound = resolve(world, op)
+                except Exception:  # noqa: BLE001
                     import traceback
 
                     _send(wfd, ("harness", traceback.format_exc()))
                     continue
                 if bound.skip:
                     _send(wfd, ("skip",))
+                elif pristine and op["op"] in PRISTINE_QUERY:
+                    current = bound
+                    _send(wfd, ("resolved",))
+                elif bound.kind == "W" and op["op"] == "query":
+                    # a kept query: computed in a child, so that this process never executes it; the
+                    # result (a fresh array) is rebuilt from its canonical form
+                    outcome = cls._in_child(lambda b=bound: exec_plain(b, None)[0])
+                    if outcome[0] == "ok" and bound.post:
+                        try:
+                            bound.post(_value_from_canon(outcome[1]))
+                        except ValueError:
+                            pass
+                    _send(wfd, outcome)
                 elif bound.kind == "W":
                     outcome, value = exec_plain(bound, None)
                     if outcome[0] == "ok" and bound.post:
@@ -112,31 +177,8 @@ class Zygote:
                     current = bound
                     _send(wfd, ("resolved",))
             elif cmd == "eval":
-                r, w = os.pipe()
-                pid = os.fork()
-                if pid == 0:
-                    code = 0
-                    try:
-                        os.close(r)
-                        outcome, _ = exec_plain(current, msg["env"])
-                        _send(w, outcome)
-                    except BaseException:  # noqa: BLE001
-                        import traceback
-
-                        try:
-                            _send(w, ("harness", traceback.format_exc()))
-                        except BaseException:  # noqa: BLE001
-                            code = 4
-                    finally:
-                        os._exit(code)
-                os.close(w)
-                try:
-                    out = _recv(r)
-                except EOFError:
-                    out = ("harness", "reference child died without an answer")
-                os.close(r)
-                os.waitpid(pid, 0)
-                _send(wfd, out)
+                env = msg["env"]
+                _send(wfd, cls._in_child(lambda b=current, e=env: exec_plain(b, e)[0]))
             else:
                 _send(wfd, ("harness", f"unknown command {cmd}"))
 
